@@ -70,6 +70,127 @@ def alpha_part(rep: Report, mods, t: str, rng: random.Random, runner) -> int:
     return len(recs)
 
 
+def _contract_chunk(recs):
+    import dataflow
+    mods = import_pyrefact()
+    out = []
+    for r in recs:
+        try:
+            out.append(dataflow.contract(mods, r))
+        except Exception as exc:  # noqa: BLE001
+            out.append({"raised": [f"{type(exc).__name__}: {exc}"]})
+    return out
+
+
+CONSUMERS = ("fixes.undefine_unused_variables", "fixes.move_before_loop", "abstractions.create_abstractions")
+
+
+def _consumer_chunk(items):
+    """The rules that consume the analysis, on the runnable form of the programs on which it is not on the safe side."""
+    import dataflow
+    mods = import_pyrefact()
+    out = []
+    for key, rec, form in items:
+        text = dataflow.program(rec) if form == "def" else dataflow.program_module(rec)
+        res = []
+        for name in CONSUMERS:
+            m, f = name.split(".")
+            fn = getattr(mods[m], f)
+            isolated._fresh_caches(mods)
+            try:
+                new = fn(text, preserve=frozenset()) if isolated._takes_preserve(fn) else fn(text)
+            except Exception as exc:  # noqa: BLE001
+                res.append((name, None, f"{type(exc).__name__}: {exc}"))
+                continue
+            if new != text:
+                res.append((name, new, None))
+        out.append((key, text, res))
+    return out
+
+
+def dataflow_part(rep: Report, mods, t: str, rng: random.Random, runner) -> int:
+    """Dataflow.tla: programs over two variables with the exact created / maybe-created / needed sets.  The real
+    tracing.code_dependencies_outputs is measured against them (recorded, not judged); the runnable form of the programs
+    goes through every rule in isolation and must print the same for every resolution of its tests and loop lengths."""
+    import multiprocessing as mp
+    import dataflow
+    recs = dataflow.cases(rep, t)
+    n = 16
+    with mp.get_context("fork").Pool(n) as pool:
+        parts = pool.map(_contract_chunk, [recs[i::n] for i in range(n)])
+    misses = [None] * len(recs)
+    for i, part in enumerate(parts):
+        misses[i::n] = part
+
+    def shape(block):
+        return "[" + ",".join(x["k"] + (("(" + shape(x["body"]) + ("/" + shape(x["orelse"]) if x.get("orelse") else "") + ")") if "body" in x else "")
+                              for x in block) + "]"
+    classes: Dict[str, list] = {}
+    summary: Dict[str, int] = {}
+    for r, m in zip(recs, misses):
+        for kind in m:
+            summary[kind] = summary.get(kind, 0) + 1
+        classes.setdefault(("+".join(sorted(m)) or "exact") + ":" + shape(r["prog"]), []).append(r)
+    # behaviour: one program of every (kind of miss x statement shape) class, more of the classes with a miss, and a random rest
+    per_class, extra = (1, 250) if t == "quick" else (6, 6000)
+    chosen = []
+    for key in sorted(classes):
+        group = classes[key]
+        k = per_class if key.startswith("exact") else per_class * 2
+        chosen += [(key, r) for r in (group if len(group) <= k else rng.sample(group, k))]
+    picked = {id(r) for _, r in chosen}
+    rest = [r for r in recs if id(r) not in picked]
+    chosen += [("random", r) for r in (rest if len(rest) <= extra else rng.sample(rest, extra))]
+    items = [(f"dataflow:{key}:{i}", dataflow.program(r)) for i, (key, r) in enumerate(chosen)]
+    iso = isolated.run_isolated(items, timeout=120)
+    # every program on which the analysis is not on the safe side goes through the rules that consume the analysis
+    risky = [(f"dataflow-miss:{'+'.join(sorted(m))}:{form}:{i}", r, form) for i, (r, m) in enumerate(zip(recs, misses)) if m
+             for form in ("def", "module")]
+    cap = 16000 if t == "quick" else 400000
+    if len(risky) > cap:
+        risky = rng.sample(risky, cap)
+    with mp.get_context("fork").Pool(n) as pool:
+        consumed = [x for part in pool.map(_consumer_chunk, [risky[i::n] for i in range(n)]) for x in part]
+    # a module-level program carries ONE input vector in its first line: judged under every vector
+    for key, text, results in consumed:
+        if ":module:" not in key:
+            iso.append((key, text, results))
+            continue
+        for k in range(len(dataflow.MODULE_VECTORS)):
+            swapped = [(rule, dataflow.with_vector(out, k) if out is not None else None, err) for rule, out, err in results]
+            swapped = [(rule, out, err) for rule, out, err in swapped if err is not None or out is not None]
+            iso.append((f"{key}:v{k}", dataflow.with_vector(text, k), swapped))
+    texts = sorted({text for _, text, _ in iso} | {out for _, _, res in iso for _, out, err in res if err is None})
+    obs = dict(zip(texts, runner.observe_many(texts)))
+    fired = 0
+    for key, text, results in iso:
+        if obs[text][0] != "ok":
+            raise MachineryError(f"a Dataflow.tla program does not run: {obs[text]}\n{text}")
+        for rule, out, err in results:
+            if err is not None:
+                continue                      # C04
+            fired += 1
+            if obs[out] == obs[text] or obs[out][0] == "syntax":          # invalid output of a rule in isolation: C03
+                continue
+            kf, sh = pipecheck.known_by_signature(rep, rule, text, out, text)
+            case = {"input_id": key, "program": text, "rule": rule, "output": out, "obs_before": obs[text], "obs_after": obs[out], "shape": sh}
+            if kf:
+                rep.known(kf, {"input_id": key, "rule": rule})
+            else:
+                rep.violation(f"rule {rule} changed behaviour on a Dataflow.tla program: obs {obs[text][1][:40]!r} -> "
+                              f"{obs[out][0]}/{obs[out][1][:40]!r}; input {key}", case)
+    examples = {}
+    for r, m in zip(recs, misses):
+        for kind in m:
+            if kind not in examples:
+                examples[kind] = {"program": dataflow.snippet(r), "names": m[kind], "model": {k: r[k] for k in ("created", "maybe", "needed")}}
+    rep.coverage["dataflow"] = {"programs": len(recs), "analysis_on_the_safe_side": sum(1 for m in misses if not m),
+                                "analysis_not_on_the_safe_side": summary, "examples": examples, "statement_shape_classes": len(classes),
+                                "programs_run_through_every_rule": len(items), "programs_run_through_the_consuming_rules": len(risky),
+                                "rule_firings": fired}
+    return len(items) + len(risky)
+
+
 def main(argv=None) -> int:
     rep = Report(PROP, "exploration")
     mods = import_pyrefact()
@@ -140,6 +261,7 @@ def main(argv=None) -> int:
             rep.violation(f"rule {rule} changed behaviour ({'/'.join(sorted(bad))}): {sh['old_src'][:90]!r} -> {sh['new_src'][:90]!r}; "
                           f"obs {base[0]}/{base[1][:40]!r} -> {after[0]}/{after[1][:40]!r}; input {key}", case)
         n_alpha = alpha_part(rep, mods, t, rng, runner)
+        n_alpha += dataflow_part(rep, mods, t, rng, runner)
     finally:
         runner.close()
     rules = isolated.rule_names()
